@@ -3,6 +3,33 @@ From TP Require Import QProofs.
 Theorem C20 : forall tr : list label, ok_C20 (observe tr) = true.
 Proof. exact C20_proof. Qed.
 
+(** The liveness half ("Hence join() returns ..."): under a cooperative environment for the
+    queue (ready handles run, blocks exit - normally, by exception or by cancellation - but no new
+    put / consumer / join) every run is finite, extends to rest, and at rest every block has
+    exited, every taken item has been marked (unfinished = items still queued) and a joiner that
+    was blocked has been released iff the queue is drained.  (QLiveThm.v also records why the
+    naive "released iff drained" for ALL joiners is false: a joiner that returned earlier stays
+    returned after later puts.) *)
+From TP Require QLive QLiveMeasure QLiveInv QLiveThm.
+Theorem C20_join_eventually_returns : forall tr0,
+  (forall ctr, QLive.coop_run (run tr0) ctr -> length ctr <= QLive.qmeasure (run tr0)) /\
+  (forall ctr, QLive.coop_run (run tr0) ctr ->
+     exists ctr', QLive.coop_run (run tr0) (ctr ++ ctr') /\
+                  QLive.at_rest (QLive.run_from (run tr0) (ctr ++ ctr'))) /\
+  (forall ctr, QLive.coop_run (run tr0) ctr -> QLive.at_rest (QLive.run_from (run tr0) ctr) ->
+     let s' := QLive.run_from (run tr0) ctr in
+     (forall c x i, nth_error (consumers s') c = Some x -> c_pc x <> CInBlock i) /\
+     unfinished s' = length (items s') /\
+     (forall j x0, nth_error (joiners (run tr0)) j = Some x0 -> joiner_released x0 = false ->
+        exists x, nth_error (joiners s') j = Some x /\
+                  (joiner_released x = true <-> items s' = [])) /\
+     (items s' = [] ->
+      forall j x, nth_error (joiners s') j = Some x -> joiner_released x = true)).
+Proof.
+  intros tr0. destruct (QLiveThm.C20_join_eventually_returns tr0) as (A & B & _ & D).
+  split; [exact A|]. split; [exact B|exact D].
+Qed.
+
 Print Assumptions C20.
 
 (* Non-vacuity 1: a concrete trace (two puts, a looping and two one-shot consumers, a joiner that
@@ -41,3 +68,4 @@ Example C20_rejects_early_join_release :
       {| o_enabled := true; o_label := QRun (HC 0); o_qsize := 0; o_ready_empty := true;
          o_released := [true]; o_events := [EvEnter 0 0] |} ] = false.
 Proof. vm_compute; reflexivity. Qed.
+Print Assumptions C20_join_eventually_returns.
